@@ -31,6 +31,31 @@ def update_decl_value(decl, new_value_str):
     decl.value = tinycss2.parse_component_value_list(new_value_str)
 
 
+def parse_declarations(content):
+    """
+    tinycss2.parse_declaration_list with white space and comments kept, except that
+    a declaration tinycss2 cannot parse (e.g. the "*zoom: 1" hack) is carried as its
+    original tokens instead of a ParseError node, which cannot be serialised again.
+    """
+    nodes = tinycss2.parse_declaration_list(
+        content, skip_whitespace=False, skip_comments=False
+    )
+    if not any(n.type == "error" for n in nodes):
+        return nodes
+    nodes, chunk = [], []
+    for token in list(content) + [None]:
+        if token is not None:
+            chunk.append(token)
+        if token is None or (token.type == "literal" and token.value == ";"):
+            parsed = tinycss2.parse_declaration_list(
+                chunk, skip_whitespace=False, skip_comments=False
+            )
+            invalid = any(n.type == "error" for n in parsed)
+            nodes.extend(chunk if invalid else parsed)
+            chunk = []
+    return nodes
+
+
 def collect_variables(rules):
     """
     Collects CSS variables from :root and html blocks.
@@ -119,9 +144,7 @@ def process_nodes_recursive(
             if parsed_declarations is not None:
                 declarations = parsed_declarations.get(id(node))
             if declarations is None:
-                declarations = tinycss2.parse_declaration_list(
-                    node.content, skip_whitespace=False, skip_comments=False
-                )
+                declarations = parse_declarations(node.content)
             valid_decls = [d for d in declarations if isinstance(d, Declaration)]
 
             modified = False
@@ -339,11 +362,7 @@ def main(path, default_bg, mode, premium):
                     selector = serialize_prelude(rule.prelude)
                     if selector in (":root", "html"):
                         # Parse and store declarations for this rule
-                        decls = tinycss2.parse_declaration_list(
-                            rule.content,
-                            skip_whitespace=False,
-                            skip_comments=False,
-                        )
+                        decls = parse_declarations(rule.content)
                         rule_declarations_map[id(rule)] = decls
 
                         for decl in decls:
